@@ -304,6 +304,37 @@ Proof.
   apply (refund_used_ok cfg (mkState qs0 ps tot) p I (inv_pods _ _ _ I eq_refl p Hp) x Hx Hnt).
 Qed.
 
+(* an update that touches nothing any invariant reads (the allow-lent-resource flag) *)
+Definition neutral (h : quota -> quota) : Prop :=
+  forall q, q_id (h q) = q_id q /\ q_parent (h q) = q_parent q /\ q_decl (h q) = q_decl q
+            /\ q_max (h q) = q_max q /\ q_mindecl (h q) = q_mindecl q /\ q_min (h q) = q_min q
+            /\ q_used (h q) = q_used q /\ q_npused (h q) = q_npused q
+            /\ q_creq (h q) = q_creq q /\ q_taint (h q) = q_taint q.
+
+Lemma neutral_flip id : neutral (fun q => if q_id q =? id then set_lend q (negb (q_lend q)) else q).
+Proof. intro q. destruct (q_id q =? id); repeat split. Qed.
+
+Lemma neutral_keeps h : neutral h -> keeps h.
+Proof. intros N q. destruct (N q) as (A & B & _ & _ & _ & _ & _ & _ & _ & T). repeat split; auto. congruence. Qed.
+
+Lemma INV_neutral cfg wf h qs ps tot :
+  neutral h -> INV cfg wf (mkState qs ps tot) -> INV cfg wf (mkState (map h qs) ps tot).
+Proof.
+  intros N [Hnd Hcr Hpar Hpex Hus Hok Hpo]. cbn in *. pose proof (neutral_keeps h N) as K.
+  constructor; cbn.
+  - rewrite (map_ids _ _ K). exact Hnd.
+  - apply forall_map; [exact Hcr|]. intros q _ Hq d Hd.
+    destruct (N q) as (_ & _ & Ed & Em & _ & _ & _ & _ & Ec & _). rewrite Ed in Hd. rewrite Ec, Em. exact (Hq d Hd).
+  - apply par_map; assumption.
+  - apply pex_map; assumption.
+  - intro W. apply forall_map; [exact (Hus W)|]. intros q _ Hq Ht d Hd.
+    destruct (N q) as (_ & _ & Ed & Em & _ & _ & Eu & _ & _ & Et). rewrite Ed in Hd. rewrite Et in Ht.
+    rewrite Eu, Em. exact (Hq Ht d Hd).
+  - intro W. apply forall_map; [exact (Hok W)|]. intros q _ Hq.
+    destruct (N q) as (_ & _ & Ed & Em & Emd & Emn & _). unfold quota_okb. rewrite Ed, Em, Emd, Emn. exact Hq.
+  - exact Hpo.
+Qed.
+
 (* a bare Reserve that belongs to the cycle whose check is in flight *)
 Lemma INV_charge_flight cfg wf st p ids m :
   INV cfg wf st -> In p (pods st) ->
@@ -330,7 +361,7 @@ Proof.
   assert (Hwf : wf && op_okb st sn o = true -> wf = true).
   { intro H. apply andb_true_iff in H. apply H. }
   destruct o as [id parent lend decl mx mindecl mn w|id mx mindecl mn w|id qn np req keys|id|id|id|id|id|t
-                 |id qn np req keys|]; unfold step; cbv zeta.
+                 |id qn np req keys|id|]; unfold step, apply_attempt; cbv zeta.
   - (* quota add *)
     destruct (id <=? 0) eqn:E0; cbn [orb fst]; [exact Iw|].
     destruct (find_quota id (quotas st)) eqn:Ef; cbn [orb fst]; [exact Iw|].
@@ -397,6 +428,11 @@ Proof.
     destruct (find_pod id (pods st)); cbn [fst]; [exact Iw|].
     destruct (find_quota qn (quotas st)); cbn [fst]; [|exact Iw].
     apply INV_pod_add_bound; [exact Iw|]. intro W. exact (Hop W).
+  - (* allow-lent flip *)
+    destruct (find_quota id (quotas st)); cbn [fst]; [|exact Iw].
+    destruct st as [qs0 ps tot]. cbn [quotas pods total] in *.
+    apply INV_refresh with (ps := ps); [|exact (inv_pods _ _ _ Iw)].
+    apply INV_neutral; [apply neutral_flip|exact Iw].
   - exact Iw.
 Qed.
 
@@ -422,7 +458,7 @@ Proof.
   { intro H. apply andb_true_iff in H. apply H. }
   assert (Fw : FL (wf && op_okb st sn o) st sn) by (apply (FL_weaken wf); assumption).
   destruct o as [id parent lend decl mx mindecl mn w|id mx mindecl mn w|id qn np req keys|id|id|id|id|id|t
-                 |id qn np req keys|]; unfold step; cbv zeta; cbn [track].
+                 |id qn np req keys|id|]; unfold step, apply_attempt; cbv zeta; cbn [track].
   - (* quota add *)
     destruct (id <=? 0) eqn:E0; cbn [orb fst]; [exact Fw|].
     destruct (find_quota id (quotas st)) eqn:Ef; cbn [orb fst]; [exact Fw|].
@@ -523,6 +559,17 @@ Proof.
       * apply nonneg_touch. apply nonneg_taint. exact Hn.
     + apply flight_charge_tainted; [exact Htn|].
       apply flight_touch. apply flight_taint. exact Hf.
+  - (* allow-lent flip *)
+    destruct (find_quota id (quotas st)); cbn [fst]; [|exact Fw].
+    intro W. destruct (Fw W) as [Hn Hf]. cbn [quotas].
+    pose proof (neutral_flip id) as N.
+    split.
+    + apply nonneg_refresh. apply nonneg_map; [|exact Hn]. intros x _ Hx d.
+      destruct (N x) as (_ & _ & _ & _ & _ & _ & Eu & _). rewrite Eu. apply Hx.
+    + apply flight_refresh. apply flight_map; [|exact Hf]. intros x _.
+      destruct (N x) as (Ei & _ & Ed & Em & _ & _ & Eu & _ & _ & Et).
+      split; [exact Ei|]. split; [exact Ed|]. rewrite Et. intro Ht. split; [exact Ht|].
+      rewrite Eu, Em. split; intros; lia.
   - exact Fw.
 Qed.
 
